@@ -72,6 +72,31 @@ def rule_R04_1(ctx):
                         if tuple(src[1:]) == want:
                             ok = True
                     why = "clone of %s" % (src,)
+                    # a creation helper that is *handed* the chain to capture
+                    # (`new_closure(scopes: &ScopeStack, ..)`): what it is handed
+                    # must be the current chain of each of its callers
+                    if ok and not g.is_closure and root_ty.startswith("&") and "mut " not in root_ty \
+                            and not anchors.is_chain_ty(prog, root_ty) and prog.callers_of(g.path) \
+                            and not any(anchors.is_chain_ty(prog, t) for t in g.locals[1:g.arg_count + 1]):
+                        k = src[0][1]
+                        n_callers -= 1
+                        for c2 in prog.callers_of(g.path):
+                            n_callers += 1
+                            h = c2.fn
+                            a2 = tuple(p for p in h.canon_op(c2.args[k - 1]) if p not in ("&", "*")) \
+                                if k - 1 < len(c2.args) and mir.is_place_operand(c2.args[k - 1]) else ()
+                            hty = (h.root_fn().locals[a2[0][1]] if not h.is_closure else h.locals[a2[0][1]]) \
+                                if a2 and a2[0][0] == "arg" else ""
+                            good = bool(a2) and a2[0][0] == "arg" and (anchors.is_chain_ty(prog, hty) or (
+                                hty.startswith("&") and anchors._strip_ty(hty) == SCOPESTACK)) \
+                                and tuple(a2[1:]) == tuple(("f", p[1]) for p in anchors.chain_pi(prog, hty) if p != "*")
+                            r.inst("%s: hands %s the chain %s" % (h.path, g.path.split("::")[-1], a2))
+                            if good:
+                                r.ok()
+                            else:
+                                r.fail("%s | captured-chain=%s" % (h.path, str(a2)[:60]),
+                                       "%s creates a function value (through %s) whose closure is "
+                                       "not a clone of its current scope chain (%s)" % (h.path, g.path, a2), where=c2.loc)
             r.inst("%s: closure captured = %s" % (g.path, why))
             if ok:
                 r.ok()
